@@ -264,7 +264,7 @@ func RunProm(lg *rec.Log, sc PromScenario, seed int64) []rec.Ev {
 				}()
 				select {
 				case <-done:
-				case <-time.After(3 * time.Second):
+				case <-time.After(8 * time.Second):
 					lg.Add(rec.Ev{E: "hang", S: mode}) // a re-entrant emission never returned: a lock the plain pipeline does not have
 					return
 				}
